@@ -195,6 +195,12 @@ Definition ym_close (tol : Q) (a b : ymixed) : bool :=
   | YMNaN, YMNaN => true
   | _, _ => false
   end.
+(* the lambda read off the implementation's target of a row is the SHARE kept_mass / total mass of that row's mask
+   (within tol) and lies in [0,1] (within tol): executable right-hand side of feature_mode_lambda_is_mi_share *)
+Definition share_agrees (tol : Q) (mi : list Q) (rows : list (list bool * Q)) : bool :=
+  forallb (fun r => let share := kept_mass mi (fst r) / qsum mi in
+                    Qle_bool (Qabs (snd r - share)) tol && Qle_bool (- tol) (snd r) && Qle_bool (snd r) (1 + tol)) rows.
+
 (* the implementation's output (x as integers, y as exact rationals of the float32 values) against the model run
    on the recovered draws *)
 Definition mixup_agrees (x : list (list (list Z))) (y : ytensor) (nc : nat) (mt : mixup_type)
